@@ -7,3 +7,31 @@ Record build_case := BCase { bc_prog : mprog; bc_tree : result tree }.
 
 Definition check_build (c : build_case) : N :=
   if result_eqb tree_eqb (build_multi (bc_prog c)) (bc_tree c) then 0 else 1.
+
+(* rows obtained by processing + executing the built tree, against the specification.
+   mode 0: exact list; 1: bag (an unordered SQL scan is involved); 2: row count only (a slice of
+   unordered SQL rows is involved).  bit 1: tree differs from the model's; bit 4: rows contradict
+   the specification; 1000: outside the key-determinedness domain. *)
+Record mrow_case := MRCase {
+  mr_prog : mprog;
+  mr_env : list (positive * rows);
+  mr_tree : result tree;
+  mr_rows : result rows;
+  mr_mode : N }.
+
+Definition check_mrows (c : mrow_case) : N :=
+  let env := mkenv (mr_env c) in
+  let c1 := if result_eqb tree_eqb (build_multi (mr_prog c)) (mr_tree c) then 0 else 1 in
+  match mr_tree c, mr_rows c with
+  | Ok t, Ok l =>
+      if negb (kd_mprog env (mr_prog c)) then 1000 else
+      let s := spec_mprog env (mr_prog c) in
+      let ok := match mr_mode c with
+                | 0 => rows_eqb s l
+                | 1 => bag_eqb s l
+                | _ => Nat.eqb (length s) (length l)
+                end in
+      let colsok := forallb (fun r : row => bool_decide (dom r = columns t)) l in
+      c1 + (if ok && colsok then 0 else 4)
+  | _, _ => c1
+  end.
